@@ -441,14 +441,17 @@ func (k *Case) runTypes() (out string) {
 		},
 		MockCreateAuthorization: func(context.Context, *acme.Authorization) error { return nil },
 	}
-	prov := &acme.MockProvisioner{MisChallengeEnabled: func(context.Context, provisioner.ACMEChallenge) bool { return true }}
+	var prov acme.Provisioner = &acme.MockProvisioner{MisChallengeEnabled: func(context.Context, provisioner.ACMEChallenge) bool { return true }}
+	if k.IDType == "wu" {
+		prov = wireProv // the real provisioner with Wire options: newAuthorization evaluates the OIDC target template
+	}
 	ctx := acme.NewProvisionerContext(acme.NewDatabaseContext(context.Background(), db), prov)
 	az := &acme.Authorization{AccountID: "accID", Identifier: acme.Identifier{Type: idType(k.IDType), Value: k.Raw}, Status: acme.StatusPending}
-	if k.IDType == "wu" || k.IDType == "wd" {
-		// newAuthorization needs Wire provisioner options for these; only challengeTypes is exercised
-		az.Wildcard = strings.HasPrefix(k.Raw, "*.")
-		v := strings.TrimPrefix(k.Raw, "*.")
-		return fmt.Sprintf("offered=%s val=%s wild=%s", typeNames(acmeapi.VerifChallengeTypes(az)), c.X(v), c.B(az.Wildcard))
+	if k.IDType == "wd" {
+		// newAuthorization evaluates Wire templates / parses the device id for these (the generated raw
+		// values are no Wire ids); only challengeTypes is exercised, on the authorization as
+		// newAuthorization leaves it since fix 77ebdfa: value kept, never a wildcard
+		return fmt.Sprintf("offered=%s val=%s wild=%s", typeNames(acmeapi.VerifChallengeTypes(az)), c.X(k.Raw), c.B(false))
 	}
 	if err := acmeapi.VerifNewAuthorization(ctx, az); err != nil {
 		return "error"
